@@ -390,7 +390,7 @@ func genRefCase(r *Rng, out *outFiles) {
 	}
 	el.WriteString("z</li>")
 	pre := r.Pick([]string{"", "", "\n  ", "p"})
-	after := r.Pick([]string{"", "\n  ", " ", "\n", "\t\n", "t", "<li>w</li>", "<!--c-->", "\n<li>w</li>", "\n  <!--c-->\n"})
+	after := r.Pick([]string{"", "\n  ", " ", "\n", "\t\n", "t", "<li>w</li>", "<!--c-->", "\n<li>w</li>", "\n  <!--c-->\n", "\r\n", "\r", "\r\n\t", "\f ", "\v"})
 	sep := ""
 	// the blank text node that directly follows the element (up to the next '<')
 	if i := strings.Index(after, "<"); i != 0 {
